@@ -36,6 +36,7 @@ type member struct {
 	closeErr        error    // CloseWithStatus tears the connection down but reports this error
 	breakAfterWrite bool     // the next accepted data frame is followed at once by a read error
 	pingsIn         int      // control pings delivered to this connection
+	writeGate       chan struct{} // non-nil: Write waits (durably) until it is closed - a connection slow to take data
 }
 
 func (m *member) Read() ([]byte, error) {
@@ -56,6 +57,15 @@ func (m *member) Read() ([]byte, error) {
 
 func (m *member) Write(b []byte) error {
 	s := m.s
+	s.mu.Lock()
+	gate := m.writeGate
+	s.mu.Unlock()
+	if gate != nil {
+		select {
+		case <-gate:
+		case <-m.closed:
+		}
+	}
 	s.mu.Lock()
 	defer s.mu.Unlock()
 	if m.isClosed {
